@@ -6,8 +6,8 @@ export GOFLAGS=-mod=mod GOPROXY=off GOSUMDB=off GOTOOLCHAIN=local
 mkdir -p bin .build evidence replays
 cd harness || exit 2
 go1.26.8 build -o ../bin/verifctl ./cmd/verifctl || exit 1
-for d in c*/; do
-  d=${d%/}
+for id in $(cat READY); do
+  d=$(echo "$id" | tr 'C' 'c')
   [ -f "$d/verif.json" ] || continue
   if grep -q '"race": *true' "$d/verif.json"; then
     go1.26.8 test -c -race -vet=off -tags verif,unit -o /dev/null "./$d" || exit 1
